@@ -7,7 +7,7 @@ import os, re, shutil, fcntl
 from .common import *
 from . import build
 
-SHADOW_ROOT = os.path.join(HARNESS, "target", "shadow")
+SHADOW_ROOT = os.path.join(HARNESS if os.path.realpath(REPO) == "/repo" else os.path.join(OUT, "harness"), "target", "shadow")
 
 A64_SUBS = [
     (r'target_arch\s*=\s*"aarch64"', 'all()'),
@@ -81,6 +81,7 @@ def _generate(sid):
     shutil.copytree(os.path.join(HARNESS, "drv"), os.path.join(ws, "drv"))
     dt = open(os.path.join(ws, "drv", "Cargo.toml")).read()
     dt, n = re.subn(r'path = "/repo/%s"' % re.escape(crate), f'path = "../{crate}"', dt)
+    dt = dt.replace('path = "/repo/', 'path = "%s/' % os.path.realpath(REPO))
     if n != 1:
         raise ToolError(f"shadow {sid}: cannot redirect the driver's dependency on {crate}")
     open(os.path.join(ws, "drv", "Cargo.toml"), "w").write(dt)
